@@ -22,7 +22,7 @@ ASSUMPTIONS = [
     "rows of the ceil branch whose r*2^log2 is within 1e-9 of an integer are skipped (float tie)",
     "monotonicity under the default thresholds is asserted for ploidy >= 2 (at ploidy 1 the definition itself is not monotone: ceil(2^log2) just above 0.7 is 2 < 4)",
 ]
-BUDGET_S = {"quick": 200, "thorough": 1200}
+BUDGET_S = {"quick": 600, "thorough": 2400}
 
 
 def setup(run):
